@@ -415,6 +415,31 @@ class KeyEval:
                 return self.truth(self.ev(e.args[0]))
             if f.id == "any" or f.id == "all":
                 raise Unsupported("%s(...) over characters at line %d" % (f.id, e.lineno))
+            helper = self.module.functions.get(f.id)
+            if helper is not None and helper is not self.fn and getattr(self, "depth", 0) < 3:
+                # a module-level helper (e.g. an extracted encoding step): evaluated in line on the same abstract input
+                args = [self.ev(a) for a in e.args]
+                if any(isinstance(a, ast.Starred) for a in e.args) or any(k.arg is None for k in e.keywords):
+                    raise Unsupported("star arguments in the call of %s at line %d" % (f.id, e.lineno))
+                env = {}
+                for p_, a in zip(helper.pos_params(), args):
+                    env[p_.name] = a
+                for k in e.keywords:
+                    env[k.arg] = self.ev(k.value)
+                for p_ in helper.params:
+                    if p_.name not in env:
+                        if not p_.has_default:
+                            raise Raised("TypeError", e)
+                        env[p_.name] = self.ev(p_.default)
+                sub = KeyEval(self.prog, helper)
+                sub.depth = getattr(self, "depth", 0) + 1
+                sub.flow = self.flow
+                sub.env = env
+                try:
+                    sub.block(helper.node.body)
+                except _Return as r:
+                    return r.value
+                return None
             raise Unsupported("call of %s at line %d" % (f.id, e.lineno))
         if isinstance(f, ast.Attribute):
             # regex search:  NAME.search(key) / re.search(lit, key)
